@@ -37,6 +37,8 @@ NAT_CONSTS = [
     ("killRetries", "src/oomd/plugins/BaseKillPlugin.cpp", r"int\s+tries\s*=\s*(\d+)"),
     ("statsMsgBufSize", "src/oomd/Stats.cpp", r"char\s+\w+\[(\d+)\]"),
     ("killStreamSize", "src/oomd/plugins/BaseKillPlugin.cpp", r"streamSize\s*=\s*(\d+)"),  # kill family
+    # systemd_restart: default of post_action_delay (member initialiser); the plugin sleeps that long inside run()
+    ("restartDefPostActionDelay", "src/oomd/plugins/systemd/SystemdRestart.h", r"int\s+post_action_delay_\{(\d+)\}"),
     # C19 stats service: read window, per-read socket timeout (s), destructor wait (s), sizeof(sun_path)
     ("statsReadWindow", "src/oomd/Stats.cpp", r"num_read\s*<\s*(\d+)"),
     ("statsIoTimeoutSec", "src/oomd/Stats.cpp", r"io_timeout\s*\{\s*\.tv_sec\s*=\s*(\d+)"),
